@@ -306,3 +306,41 @@ Proof. reflexivity. Qed.
 Example unlocked_update_rejected :
   conforms_tight stats_table [] [Acq currMu W; Rd f_curr; Wr f_curr; Rel currMu W] = false.
 Proof. vm_compute. reflexivity. Qed.
+
+(** * The reset is atomic *)
+
+(** A program is one confMu write section: it starts by taking confMu for
+    writing, ends by releasing it, and does not touch confMu in between. *)
+Definition no_confMu (e : event) : bool :=
+  match e with
+  | Acq l _ | Rel l _ => negb (String.eqb l confMu)
+  | _ => true
+  end.
+
+Definition one_write_section (p : list event) : bool :=
+  match p with
+  | Acq l W :: r =>
+      String.eqb l confMu &&
+      match rev r with
+      | Rel l' W :: body => String.eqb l' confMu && forallb no_confMu body
+      | _ => false
+      end
+  | _ => false
+  end.
+
+(** clear() as run by both handlers (closing the file, removing it, opening
+    the new one, replacing the unit: the accesses to filename, unitIDGen and
+    curr of [p_clear] / [p_disable_and_clear]) follows the table of the current
+    source and is one confMu write section; so are Update, the hourly flush
+    (after reading the clock), PUT config and setLimit.  By
+    [stats_ops_serialised] none of them can be inside its section while a
+    clear is inside its own: nothing lands between the steps of a reset, and
+    run without anything in between the three steps are the atomic clear
+    (Proofs/StatsExt.reset_steps_atomic). *)
+Lemma reset_is_one_section :
+  conforms_tight stats_table [] p_clear = true /\
+  conforms_tight stats_table [] p_disable_and_clear = true /\
+  one_write_section p_clear = true /\ one_write_section p_disable_and_clear = true /\
+  one_write_section p_update = true /\ one_write_section (tl p_flush) = true /\
+  one_write_section p_put_config = true /\ one_write_section p_set_limit = true.
+Proof. vm_compute. repeat split. Qed.
